@@ -45,6 +45,13 @@ type c10Err struct {
 func (e *c10Err) Error() string { return "c10-" + e.kind + "-" + strconv.Itoa(e.attempt) }
 func (e *c10Err) Unwrap() error { return e.wrap }
 
+// Timeout: the tag must not hide what kind of error it carries from code that asks the net.Error
+// way (`interface{ Timeout() bool }`, os.IsTimeout) instead of errors.Is.
+func (e *c10Err) Timeout() bool {
+	var t interface{ Timeout() bool }
+	return e.wrap != nil && errors.As(e.wrap, &t) && t.Timeout()
+}
+
 // c10Ctx is the request's context: the harness decides when and how it becomes done
 // (cancelled by the caller, or its deadline passed).
 type c10Ctx struct {
@@ -1785,7 +1792,7 @@ func c10Simple() *c10Case {
 // retry counts x policy configurations, on a plain request; then random policies.
 func TestVerif_C10_loop(t *testing.T) {
 	s := verifh.New(t, "C10", "loop",
-		"exhaustive: outcome sequences over {200,503,transport error,cancelled,(nil,err) wrapper,middleware error,bad body,deadline error,deadline of the request context passed,response then cancel} up to depth 3 (quick) / 5 (thorough), over a 4-symbol alphabet up to depth 6, x MaxRetries {-1,0,1,2,5,unset} x policy {default rule, one condition, two conditions, request-level response middleware}; then random client/request Set/Add op lists (conditions, hooks, interval functions incl. fixed/backoff/default), random failing response middleware; SIBLINGS: 0..9 client-level Add calls (slice capacities with and without spare room) x a second request of the same client / a Client.Clone configured with its own Add/Set calls after the request under test and before it is sent; non-trivial = at least one retry")
+		"exhaustive: outcome sequences over {200,503,transport error,cancelled,(nil,err) wrapper,middleware error,bad body,deadline error,deadline of the request context passed,response then cancel} up to depth 3 (quick) / 5 (thorough), over a 4-symbol alphabet up to depth 6, x MaxRetries {-1,0,1,2,5,unset} x policy {default rule, one condition, two conditions, request-level response middleware}; then random client/request Set/Add op lists (conditions, hooks, interval functions incl. fixed/backoff/default), random failing response middleware; SIBLINGS: 0..9 client-level Add calls (slice capacities with and without spare room) x a second request of the same client / a Client.Clone configured with its own Add/Set calls after the request under test and before it is sent; ERROR KIND x CONTEXT STATE: exhaustive scripts over {t,d,T,D,c,L503,s503,s200} and every coherent (cause in {none,transport,Client.Timeout,net timeout,ctx deadline,ctx cancel}, context in {alive,canceled,expired}) pair alone and in pairs with REAL error values of that kind, x counts x policies; c10kind lines tie the cause/context table and errors.Is; non-trivial = at least one retry")
 	r := s.Rand()
 	dir := t.TempDir()
 	var recs []c10Rec
@@ -2574,7 +2581,7 @@ func c10RandShape(r interface{ Intn(int) int }, tc *c10Case, origin string, scri
 // TestVerif_C10_wire: what successive attempts put on the wire, over request shapes.
 func TestVerif_C10_wire(t *testing.T) {
 	s := verifh.New(t, "C10", "wire",
-		"random request shapes: client- and request-level cookies, headers (shared keys, Content-Type at either level), query (request key overriding a client key, multi-valued), form data (map and ordered, client-level merge, values with characters that need escaping), bodies (none, bytes/string, GetBody func, marshalled map, io.Reader), multipart (fields only; files from bytes / path / seekable reader / non-rewindable reader, explicit and sniffed part content types, > 512-byte files), methods incl. payload-forbidden ones, trace and dump on; x retry count {-1,0,1,2,5} at either level x scripts of 1-4 failing outcomes then success; some hooks edit the request; every attempt's decoded wire request is compared with the model and with attempt 0; non-trivial = at least one retry")
+		"random request shapes: client- and request-level cookies, headers (shared keys, Content-Type at either level), query (request key overriding a client key, multi-valued), form data (map and ordered, client-level merge, values with characters that need escaping), bodies (none, bytes/string, GetBody func, marshalled map, io.Reader), multipart (fields only; files from bytes / path / seekable reader / non-rewindable reader, explicit and sniffed part content types, > 512-byte files), methods incl. payload-forbidden ones, trace and dump on; x retry count {-1,0,1,2,5} at either level x scripts of 1-4 failing outcomes then success; some hooks edit the request; FILE CONTENT SOURCES (fresh reader per call, reopened path, SetFileReader seeker / non-rewindable / closer, caller-written GetFileContent handing out the same seekable / non-seekable reader) x buffered or streamed (pipe, chunked) multipart x retries, systematically and at random; BODY KIND CHANGED IN FLIGHT: an io.Reader body or a non-rewindable file reader installed by an OnBeforeRequest middleware at attempt 0/1/2 or by a retry hook, over 5 request shapes x counts incl. -1, payload-forbidden methods included; every attempt's decoded wire request is compared with the model and with attempt 0; non-trivial = at least one retry")
 	r := s.Rand()
 	dir := t.TempDir()
 	var recs []c10Rec
